@@ -139,6 +139,25 @@ def run_map_case(case):
                                 "pose: %s %s" % (s0.tolist(), s1.tolist()))
         elif sc:
             msgs.append("markers drawn although disabled")
+        # --- the marker function itself, with the caller's own symbols
+        # (also one symbol for both ends, told apart by colour)
+        for syms in (("o", "x"), ("o", "o"), ("^", "^")):
+            fig2 = plt.figure()
+            try:
+                ax2 = plot.prepare_axis(fig2, pm)
+                plot.add_start_end_markers(ax2, pm, a, start_symbol=syms[0],
+                                           end_symbol=syms[1])
+                sc2 = [c for c in ax2.collections
+                       if isinstance(c, PathCollection)]
+                if len(sc2) != 2:
+                    msgs.append("add_start_end_markers%s drew %d marker(s), "
+                                "expected start and end" % (syms, len(sc2)))
+                elif not eq(_offsets(sc2[0], three), sel(ps[:1], mode)) or \
+                        not eq(_offsets(sc2[1], three), sel(ps[-1:], mode)):
+                    msgs.append("add_start_end_markers%s: markers not at the "
+                                "first / last pose" % (syms, ))
+            finally:
+                plt.close(fig2)
         # --- colour-mapped error segments
         ncoll = len(ax.collections)
         err = np.linspace(0.5, 2.0, n)
@@ -330,9 +349,13 @@ def run_multi_case(case):
     fig = plt.figure()
     msgs = []
     try:
-        arg = trajs if case["container"] == "dict" else (
-            list(trajs.values()) if case["container"] == "list"
-            else trajs["t0"])
+        cont = case["container"]
+        vals = list(trajs.values())
+        arg = {"dict": lambda: trajs, "list": lambda: vals,
+               "single": lambda: trajs["t0"], "tuple": lambda: tuple(vals),
+               "generator": lambda: (t for t in vals),
+               "iterator": lambda: iter(vals),
+               "dict_values": lambda: trajs.values()}[cont]()
         plot.trajectories(fig, arg, pm)
         ax = fig.axes[0]
         nexp = 1 if case["container"] == "single" else case["count"]
@@ -396,7 +419,8 @@ def all_cases(thorough):
                                   "edges": True, "unit": "m",
                                   "storage": "int"}))
         for count in (1, 2, 3):
-            for container in ("dict", "list", "single"):
+            for container in ("dict", "list", "single", "tuple", "generator",
+                              "iterator", "dict_values"):
                 cases.append(("multi", {"mode": mode, "n": 3, "count": count,
                                         "container": container}))
     for n in ns:
